@@ -43,7 +43,7 @@ def gen_cases(tier, seed):
                 "gc": GC_PLANS[i % len(GC_PLANS)],
                 "refs": REF_POLICIES[(i // 4) % 3],
                 "n_ops": [8, 12, 18, 25][i % 4] if tier == "quick" else [10, 20, 35, 60][i % 4],
-                "profile": ["mixed", "churn", "deep", "pg"][(i // 12) % 4],
+                "profile": ["mixed", "churn", "deep", "pg", "clip"][(i // 12) % 5],
                 "in_memory": i % 9 == 0,
             }
         )
@@ -51,9 +51,10 @@ def gen_cases(tier, seed):
 
 
 PROFILES = {
-    "mixed": {"dup_uid": 0.8, "add_data_fail": 0.6},
-    "churn": {"dup_uid": 1.0, "mk_object": 2.0, "remove": 4.0, "copy": 3.0, "move": 3.0, "rename": 2.0, "reopen": 2.0, "gc": 1.5, "listing": 1.5},
+    "mixed": {"dup_uid": 0.8, "add_data_fail": 0.6, "mk_deferred": 1.0, "clip": 1.0},
+    "churn": {"dup_uid": 1.0, "mk_deferred": 1.0, "clip": 1.5, "mk_object": 2.0, "remove": 4.0, "copy": 3.0, "move": 3.0, "rename": 2.0, "reopen": 2.0, "gc": 1.5, "listing": 1.5},
     "deep": {"mk_group": 5.0, "move": 4.0, "copy": 2.5, "mk_object": 2.0},
+    "clip": {"mk_object": 4.0, "add_data": 6.0, "clip": 6.0, "set_values": 1.0, "reopen": 1.5, "remove": 1.0, "mk_group": 1.5, "move": 1.0},
     "pg": {"add_data": 6.0, "pg_add": 4.0, "pg_remove_data": 2.0, "pg_delete": 1.0, "remove": 3.0, "copy": 2.0},
 }
 
@@ -104,6 +105,7 @@ def run_case(case, rec):
         ref_policy=case["refs"],
         n_ops=case["n_ops"],
         in_memory_start=case.get("in_memory", False),
+        classes=["Grid2D", "Grid2D", "Curve", "Points", "BlockModel", "Surface", "Octree"] if case["profile"] == "clip" else None,
     )
     eng.run()
     rec.shape = [case["gc"], case["refs"], case["profile"], [(o["op"], o.get("cls", "")) for o in eng.log]]
